@@ -712,6 +712,11 @@ class Interp:
             return self.matmul(a, b)
         if fn is None:
             raise PathAbort(f"operator {name}", ctx.cur_line)
+        if name == "Mult" and (isinstance(a, Arr) or isinstance(b, Arr)):
+            isb = lambda x: isinstance(x, bool) or (isinstance(x, Arr) and x.dtype == "bool") or (T.is_sym(x) and not isinstance(x, Arr) and T.sort_of(x) == "bool")
+            if isb(a) and isb(b):
+                # NumPy: the product of Booleans is their conjunction and stays Boolean (`True * np.ones(n, dtype=bool)`)
+                return N.elementwise(ctx, lambda x, y: T.And(x, y), [a, b], "bool")
         if isinstance(a, Arr) or isinstance(b, Arr):
             return N.elementwise(ctx, fn, [a, b])
         if not (T.is_scalar(a) and T.is_scalar(b)):
@@ -727,6 +732,12 @@ class Interp:
             # opt-in per contract: a scalar division is an obligation "divisor is not zero" (a zero divisor would give
             # inf / nan, which the real-number encoding cannot represent)
             self.ctx.oblige(T.tz(b) != 0, "divisor-not-zero", kind="index")
+            if getattr(self.ctx, "div_as_product", False) and T.is_scalar(a):
+                # opt-in: the quotient by a symbolic divisor is named and DEFINED by q * b = a (b != 0 was just demanded):
+                # both solvers reason about products far better than about `/` with a non-constant divisor
+                qv = z3.Real(T.fresh_name("quot"))
+                self.ctx.assume(qv * T.tz(T.as_real(b)) == T.tz(T.as_real(a)))
+                return qv
             return T.truediv(a, b)
         self.ctx.dropped.add("division: divisor assumed non-zero (IEEE inf/nan not modelled)")
         return T.truediv(a, b)
